@@ -358,10 +358,16 @@ func (a *Agent) AddPeers(ctx context.Context, p pool.Pool, num int) error {
 	}
 	nodes := peerResp.Peers
 	logger.Printf("Received %d peer candidates from pool.", len(nodes))
+	// The pool has told every one of these hosts to expect us: try them all,
+	// one that can't be connected must not keep us from the others.
+	var errors []error
 	for _, node := range nodes {
 		if err := a.EthNode.ConnectPeer(ctx, node.URI); err != nil {
-			return err
+			errors = append(errors, err)
 		}
+	}
+	if len(errors) > 0 {
+		return fmt.Errorf("failed to connect to %d of %d peers: %q", len(errors), len(nodes), errors)
 	}
 	return nil
 }
